@@ -35,3 +35,4 @@ def check(ctx):
     dispatch.noise_cover(ctx)
     drivers.create_impl_table(ctx)
     dispatch.hamiltonian_type_table(ctx)
+    drivers.sv_solver_table(ctx)
